@@ -226,20 +226,42 @@ pub const ZSTD_COMPRESSION_LEVEL: i32 = 3;
 /// Represents the byte offset in a segment file up to which all data has been safely
 /// flushed to disk and can be read concurrently.
 #[derive(Clone, Debug)]
-pub struct FlushedOffset(Arc<AtomicU64>);
+pub struct FlushedOffset(Arc<FlushedOffsetInner>);
+
+#[derive(Debug)]
+struct FlushedOffsetInner {
+    offset: AtomicU64,
+    // Number of times the segment was truncated. Readers drop what they cached when it changes:
+    // bytes below the flushed offset are immutable only as long as the segment is not truncated.
+    truncations: AtomicU64,
+}
 
 impl FlushedOffset {
     pub(crate) fn new(offset: u64) -> Self {
-        FlushedOffset(Arc::new(AtomicU64::new(offset)))
+        FlushedOffset(Arc::new(FlushedOffsetInner {
+            offset: AtomicU64::new(offset),
+            truncations: AtomicU64::new(0),
+        }))
     }
 
     pub(crate) fn set(&self, offset: u64) {
-        self.0.store(offset, Ordering::Release)
+        self.0.offset.store(offset, Ordering::Release)
+    }
+
+    /// Lowers the flushed offset because the segment was truncated to `offset`.
+    pub(crate) fn truncate(&self, offset: u64) {
+        self.0.truncations.fetch_add(1, Ordering::Release);
+        self.0.offset.store(offset, Ordering::Release)
+    }
+
+    /// Must be loaded *after* the flushed offset it is used with.
+    pub(crate) fn truncations(&self) -> u64 {
+        self.0.truncations.load(Ordering::Acquire)
     }
 
     /// Returns the current flushed offset value.
     pub fn load(&self) -> u64 {
-        self.0.load(Ordering::Acquire)
+        self.0.offset.load(Ordering::Acquire)
     }
 }
 
